@@ -143,6 +143,7 @@ def run(ctx: Ctx):
             ctx.violate(f"raises:{type(e).__name__}", f"arithmetic raised {type(e).__name__}: {e}", case)
     two_part_constructors(ctx, TimeDelta, drv)
     array_ops(ctx, Time, TimeDelta, drv)
+    epoch_constructors(ctx, Time, TimeDelta, drv)
     mixed_scales(ctx, Time, TimeDelta)
     ctx.traces = ctx.evaluations
 
@@ -357,20 +358,185 @@ def array_ops(ctx, Time, TimeDelta, drv):
     ctx.traces += 1
 
 
+EPOCH_FMTS = ["jd", "jd2", "mjd", "mjd2", "datetime", "gps_ws", "gps_seconds", "jyear", "decimalyear", "yydddsssss", "yyyydddsssss",
+              "isot", "iso", "yday", "date"]
+INPUT_KINDS = ["fresh", "midnight", "from-time", "from-time-copy", "table-columns", "table-columns-midnight"]
+
+
+def epoch_constructors(ctx, Time, TimeDelta, drv):
+    """`Time(val[, val2], fmt=…)` for every format x kinds of ndarray input (new arrays, midnight-only epochs, the two parts of
+    another Time as they are / as writable copies, column views of a 2-d table): the caller's arrays (and the table) keep their
+    contents and flags, the new object shares no memory with them, and changing them afterwards changes neither the epoch, nor
+    its hash, nor `t + d`.  For jd / mjd also against the heap model `ctorTimeH` (caller buffers afterwards, fresh storage)."""
+    rng = ctx.rng
+    for _ in range(ctx.budget(260, 6000)):
+        fmt = rng.choice(EPOCH_FMTS)
+        kind = rng.choice(INPUT_KINDS)
+        scale = "gps" if fmt.startswith("gps") else rng.choice(SCALES)
+        n = rng.randint(1, 5)
+        midnight = "midnight" in kind
+        mj = [float(rng.randint(44300, 88000)) if midnight else gen_epoch_mjd(rng) if not fmt.startswith("gps") else rng.uniform(44300, 88000)
+              for _k in range(n)]
+        if fmt == "date":
+            mj = [float(np.floor(x)) for x in mj]
+        if fmt == "yydddsssss":      # two-digit years denote 1969 .. 2068
+            mj = [40600.0 + (x - 37300.0) % 35000.0 for x in mj]
+        j1 = np.array([np.floor(x) + 2400000.5 for x in mj], dtype=float)
+        j2 = np.array([x - np.floor(x) for x in mj], dtype=float)
+        case = {"epoch_ctor": fmt, "input": kind, "scale": scale, "mjd": mj}
+        try:
+            base = Time(j1.copy(), val2=j2.copy(), fmt="jd", scale=scale)     # supplies the values in the format under test
+            two_part = fmt in ("jd2", "mjd2", "gps_ws")
+            if fmt in ("jd2",):
+                cols = [np.array(base.jd1), np.array(base.jd2)]
+            elif fmt == "mjd2":
+                cols = [np.array(base.jd1) - 2400000.5, np.array(base.jd2)]
+            elif fmt == "gps_ws":
+                cols = [np.array(base.gps_ws.week, dtype=float), np.array(base.gps_ws.seconds, dtype=float)]
+            else:
+                cols = [np.array(getattr(base, fmt))]
+        except Exception as e:
+            ctx.violate(f"epoch-values-raise:{fmt}", f"{type(e).__name__}: {e}", case)
+            continue
+        real_fmt = {"jd2": "jd", "mjd2": "mjd"}.get(fmt, fmt)
+        numeric = all(c.dtype == float for c in cols)
+        table = None
+        if kind.startswith("from-time"):
+            if not two_part or fmt == "gps_ws":
+                # the parts of another Time only exist for the two-part jd / mjd input; one-part formats: its own value array
+                src = [np.asarray(getattr(base, real_fmt))] if not two_part else None
+                if src is None or src[0].ndim != 1:
+                    ctx.count("epoch-ctor:kind-not-applicable")
+                    continue
+                args = src if kind == "from-time" else [x.copy() for x in src]
+            else:
+                src = [base.jd1, base.jd2] if fmt == "jd2" else None
+                if src is None:
+                    ctx.count("epoch-ctor:kind-not-applicable")
+                    continue
+                args = list(src) if kind == "from-time" else [np.array(x) for x in src]
+        elif kind.startswith("table-columns") and numeric:
+            table = np.empty((n, len(cols) + 1))
+            for k, c in enumerate(cols):
+                table[:, k] = c
+            table[:, -1] = 7.0
+            args = [table[:, k] for k in range(len(cols))]
+        elif kind.startswith("table-columns"):
+            table = np.empty((n, 2), dtype=cols[0].dtype)
+            table[:, 0] = cols[0]
+            table[:, 1] = cols[0]
+            args = [table[:, 0]]
+        else:
+            args = [c.copy() for c in cols]
+        for x in args:
+            if isinstance(x, np.ndarray) and kind != "from-time" and not x.flags.writeable:
+                x.flags.writeable = True
+        ctx.case(case)
+        ctx.count(f"epoch-ctor:{fmt}")
+        ctx.count(f"epoch-input:{kind}")
+
+        def state():
+            return ([snapshot(x) for x in args], None if table is None else snapshot(table))
+
+        before = state()
+        try:
+            t = Time(args[0], val2=args[1], fmt=real_fmt, scale=scale) if len(args) == 2 else Time(args[0], fmt=real_fmt, scale=scale)
+        except Exception as e:
+            ctx.violate(f"epoch-ctor-raises:{fmt}", f"Time(fmt={real_fmt!r}) raised {type(e).__name__}: {e}", case)
+            continue
+        after = state()
+        if [x[:4] for x in before[0]] != [x[:4] for x in after[0]] or (before[1] or ())[:4] != (after[1] or ())[:4]:
+            ctx.violate("constructor-mutates-input", f"constructing Time(fmt={real_fmt!r}) changed the contents of the caller's array", case)
+        elif before != after:
+            ctx.violate("constructor-freezes-input", f"constructing Time(fmt={real_fmt!r}) changed flags.writeable of the caller's array ({kind})", case)
+        # the value: the epochs given (to the precision of the format: a microsecond for the calendar / text formats)
+        got = insts(t)
+        prec = Fraction(1, 86400 * 10**6) * 2 if real_fmt not in ("jd", "mjd") or not two_part else NS
+        if real_fmt in ("jd", "mjd", "jyear", "decimalyear", "gps_seconds") and not two_part:
+            prec = Fraction(1, 10**9)      # one float of days / years / seconds since 1980
+        if real_fmt == "date":
+            prec = Fraction(1)
+        if real_fmt in ("yydddsssss", "yyyydddsssss"):
+            prec = Fraction(1, 86400)      # these texts carry whole seconds of the day
+        for i in range(n):
+            want = frac(j1[i]) + frac(j2[i])
+            if abs(got[i] - want) > prec:
+                ctx.violate(f"epoch-ctor-value:{fmt}", f"Time(fmt={real_fmt!r}) denotes another epoch than the one given ({float((got[i] - want) * 86400):.3e} s)", {**case, "i": i})
+                break
+        # independence: no shared memory with anything the caller can write to …
+        stores = [x for x in (t.jd1, t.jd2, np.asarray(t)) if isinstance(x, np.ndarray) and x.size]
+        caller = [x for x in args if isinstance(x, np.ndarray) and x.size] + ([table] if table is not None else [])
+        shared = any(np.shares_memory(x, y) for x in stores for y in caller if x.dtype == y.dtype or True)
+        writable_caller = kind != "from-time"
+        if shared and writable_caller:
+            ctx.violate("constructor-aliases-input", f"Time(fmt={real_fmt!r}) keeps the caller's array ({kind}) as its own storage (np.shares_memory)", case)
+        # … and on the heap model (jd / mjd): caller buffers afterwards, storage fresh
+        if real_fmt in ("jd", "mjd") and numeric:
+            enc = lambda v: "a:" + ",".join(rs(frac(x)) for x in v)
+            ans = drv.ask1(f"c03 htime {real_fmt} {scale} {enc(args[0])} {enc(args[1]) if len(args) == 2 else 'none'}")
+            hres, hheap, _new, hshared = (x.strip() for x in ans.split("|"))
+            flags_now = [(sn[3], sn[4]) for sn in after[0]]
+            model_heap = dec_heap(hheap)
+            real_heap = [([frac(x) for x in vals], (True if kind == "from-time" else w)) for vals, w in flags_now]
+            if kind == "from-time":
+                model_heap = [(d_, True) for d_, _w in model_heap]      # the model places every caller array in a writable buffer
+            if model_heap != real_heap:
+                ctx.disagree("caller arrays after an epoch constructor (heap model)", case, hheap, str(real_heap)[:300])
+            if (hshared == "shared") != shared:
+                ctx.disagree("storage of a constructed epoch (heap model: fresh buffers)", case, hshared, "shared" if shared else "fresh")
+            if hres in ("NI", "SHAPE", "BAD"):
+                ctx.disagree("epoch constructor (heap model)", case, hres, "a value")
+            else:
+                _sc, m1, m2 = dec_val(hres.split()[1])
+                p1, p2 = jparts(t)
+                for i in range(n):
+                    if not close(p1[i] + p2[i], m1[i] + m2[i], m1[i]) and abs((p1[i] + p2[i]) - (m1[i] + m2[i])) > Fraction(1, 10**9):
+                        ctx.disagree("epoch constructor (heap model: value)", {**case, "i": i}, hres, [str(p1[i]), str(p2[i])])
+                        break
+            ctx.count("epoch-ctor:heap-model-compared")
+        # history: the caller reuses its arrays / table afterwards
+        d = TimeDelta(1.25, fmt="days", scale=scale)
+        keep = (jparts(t), hash(t), jparts(t + d), [str(x) for x in np.atleast_1d(np.asarray(t)).ravel().tolist()])
+        wrote = False
+        for x in ([table] if table is not None else []) + [a for a in args if isinstance(a, np.ndarray)]:
+            if kind == "from-time":
+                break
+            try:
+                if x.dtype == float:
+                    x += 0.375
+                elif x.size:
+                    x[...] = x.ravel()[::-1].reshape(x.shape) if x.size > 1 else x
+                wrote = True
+            except ValueError:
+                ctx.violate("constructor-freezes-input", f"after Time(fmt={real_fmt!r}) the caller's array ({kind}) cannot be written any more", case)
+        if wrote:
+            ctx.count("epoch-ctor:history-mutated-afterwards")
+            now = (jparts(t), hash(t), jparts(t + d), [str(x) for x in np.atleast_1d(np.asarray(t)).ravel().tolist()])
+            if now != keep:
+                what = "stored parts" if now[0] != keep[0] else "hash" if now[1] != keep[1] else "t + d" if now[2] != keep[2] else "format values"
+                ctx.violate("constructor-aliases-input", f"changing the caller's array after Time(fmt={real_fmt!r}) changed the epoch ({what})", case)
+    ctx.traces += 1
+
+
 def make_time(Time, tfmt, mjds, scale, scalar):
+    """(time, the caller's input value(s), their snapshot taken *before* the constructor ran)"""
     if tfmt == "mjd":
         v = mjds[0] if scalar else np.array(mjds)
-        return Time(v, fmt="mjd", scale=scale), v
+        sn = snapshot(v)
+        return Time(v, fmt="mjd", scale=scale), v, sn
     if tfmt == "jd":
         v1 = [np.floor(m) + 2400000.5 for m in mjds]
         v2 = [m - np.floor(m) for m in mjds]
         if scalar:
-            return Time(v1[0], val2=v2[0], fmt="jd", scale=scale), (v1[0], v2[0])
+            sn = snapshot((v1[0], v2[0]))
+            return Time(v1[0], val2=v2[0], fmt="jd", scale=scale), (v1[0], v2[0]), sn
         a1, a2 = np.array(v1), np.array(v2)
-        return Time(a1, val2=a2, fmt="jd", scale=scale), (a1, a2)
+        sn = snapshot((a1, a2))
+        return Time(a1, val2=a2, fmt="jd", scale=scale), (a1, a2), sn
     dts = [datetime(1858, 11, 17) + timedelta(days=int(np.floor(m)), microseconds=int(round((m - np.floor(m)) * 86400e6))) for m in mjds]
     v = dts[0] if scalar else np.array(dts, dtype=object)
-    return Time(v, fmt="datetime", scale=scale), v
+    sn = snapshot(v)
+    return Time(v, fmt="datetime", scale=scale), v, sn
 
 
 def snapshot(x):
@@ -388,8 +554,16 @@ def obj_snapshot(o):
 def one_case(ctx, Time, TimeDelta, drv, scale, fmt, fmt2, scalar, dvals, evals, mjds, mjds2, tfmt, case):
     # ---- constructors, with snapshots of the caller's inputs
     t_in = None
-    t, t_in = make_time(Time, tfmt, mjds, scale, scalar)
-    t2, t2_in = make_time(Time, tfmt, mjds2, scale, scalar)
+    t, t_in, t_sn = make_time(Time, tfmt, mjds, scale, scalar)
+    t2, t2_in, t2_sn = make_time(Time, tfmt, mjds2, scale, scalar)
+    if (snapshot(t_in), snapshot(t2_in)) != (t_sn, t2_sn):
+        ctx.violate("constructor-mutates-input", f"constructing Time(fmt={tfmt!r}) changed the caller's array (contents or flags)", case)
+    if not scalar:
+        for obj, arrs in ((t, t_in), (t2, t2_in)):
+            for x in (arrs if isinstance(arrs, tuple) else (arrs,)):
+                if isinstance(x, np.ndarray) and x.dtype == float and any(
+                        isinstance(y, np.ndarray) and np.shares_memory(x, y) for y in (obj.jd1, obj.jd2, np.asarray(obj))):
+                    ctx.violate("constructor-aliases-input", f"Time(fmt={tfmt!r}) keeps the caller's array as its own storage", case)
     raw_d = copy.deepcopy(dvals)
     d_in_before = None
     if fmt == "timedelta":
